@@ -218,6 +218,13 @@ func resultVal(sig *types.Signature, rets []*Val) *Val {
 func (e *Engine) callFunc(st *State, instr ssa.Instruction, fn *ssa.Function, args, bind []*Val, call *ssa.CallCommon, k func(st *State, res *Val)) {
 	name := fn.String()
 	e.callSiteReqs(st, instr, fn, args)
+	if len(st.frames) > 0 && st.frames[0].contract != nil && len(st.frames[0].contract.CallSiteEns[stripTypeArgs(fn.Name())]) > 0 {
+		k0 := k
+		k = func(st *State, res *Val) {
+			e.callSiteEns(st, stripTypeArgs(fn.Name()), fn.Signature.Recv() != nil, args, res)
+			k0(st, res)
+		}
+	}
 	// a higher-order schema (BatchWork, RunJobWorker ...) describes the call
 	// for its callers; a contract on such a function is for the proof of its
 	// own body (C33) and is not what callers see
